@@ -38,6 +38,7 @@ void vf_watch(const void *, int64_t, const void *, const char *) {}
 void vf_thread(int64_t, const char *) {}
 void vf_watch_end() {}
 double vf_havoc(int64_t) { return std::nan(""); }
+void vf_havoc_is(int64_t, double) {}
 bool vf_near(double a, double b, double tol)
 {
   double m = std::fmax(1.0, std::fmax(std::fabs(a), std::fabs(b)));
